@@ -228,6 +228,13 @@ func (smf *SMFailed) UnmarshalXML(d *xml.Decoder, start xml.StartElement) error 
 		case xml.StartElement:
 			// Decode sub-elements
 			var err error
+			if tt.Name.Space != "urn:ietf:params:xml:ns:xmpp-stanzas" {
+				// not an error condition at all, whatever its local name is
+				if err = d.Skip(); err != nil {
+					return err
+				}
+				continue
+			}
 			switch tt.Name.Local {
 			case "bad-format":
 				bf := BadFormat{}
